@@ -15,7 +15,7 @@ from ..dynamic_typing import (
     StringLiteral,
     StringSerializable
 )
-from ..dynamic_typing.base import NoneType
+from ..dynamic_typing.base import NoneType, UnknownType
 
 
 def convert_strings(str_field_paths: List[str], class_type: Optional[ClassType] = None,
@@ -178,7 +178,7 @@ def get_string_field_paths(model: ModelMeta) -> List[Tuple[str, List[str]]]:
                     break
                 elif cls is NoneType:
                     continue
-                elif cls in (StringLiteral,):
+                elif cls in (StringLiteral, UnknownType):
                     continue
                 else:
                     raise TypeError(f"Unsupported meta-type for converter path {cls}")
